@@ -21,6 +21,15 @@ impl<'a> RtcpPacketParser<'a> for App<'a> {
     fn parse(data: &'a [u8]) -> Result<Self, RtcpParseError> {
         parser::check_packet::<Self>(data)?;
 
+        // the padding must fit behind the fixed part, `data()` relies on it
+        let req_len = Self::MIN_PACKET_LEN + parser::parse_padding(data).unwrap_or(0) as usize;
+        if data.len() < req_len {
+            return Err(RtcpParseError::Truncated {
+                expected: req_len,
+                actual: data.len(),
+            });
+        }
+
         Ok(Self { data })
     }
 
